@@ -193,6 +193,47 @@ impl Rem<&BigUint> for &BigUint {
 //@ end
 }
 
+impl DivSpecImpl<BigUint> for BigUint {
+    open spec fn obeys_div_spec() -> bool { false }
+    open spec fn div_req(self, rhs: BigUint) -> bool { self.wf() && rhs.wf() && (!mp() ==> rhs.v() != 0) }
+    open spec fn div_spec(self, rhs: BigUint) -> BigUint { arbitrary() }
+}
+impl Div<BigUint> for BigUint {
+    type Output = BigUint;
+//@ extract src/biguint/division.rs :: impl Div<BigUint> for BigUint :: fn div props=C10,C03,C14 label=div_val_val
+    fn div(self, other: BigUint) -> /*+*/(r: /*-*/BigUint/*+*/)/*-*/
+//+{
+        ensures mp() ==> other.v() != 0, r.wf(), exists|m: nat| udiv_ok(self.v(), other.v(), r.v(), m)
+//+}
+    {
+        let (q, _) = div_rem(self, other);
+        q
+    }
+//@ end
+}
+impl RemSpecImpl<BigUint> for BigUint {
+    open spec fn obeys_rem_spec() -> bool { false }
+    open spec fn rem_req(self, rhs: BigUint) -> bool { self.wf() && rhs.wf() && (!mp() ==> rhs.v() != 0) }
+    open spec fn rem_spec(self, rhs: BigUint) -> BigUint { arbitrary() }
+}
+impl Rem<BigUint> for BigUint {
+    type Output = BigUint;
+//@ extract src/biguint/division.rs :: impl Rem<BigUint> for BigUint :: fn rem rules=R0,R3q props=C10,C03,C14 label=rem_val_val
+    fn rem(self, other: BigUint) -> /*+*/(r: /*-*/BigUint/*+*/)/*-*/
+//+{
+        ensures mp() ==> other.v() != 0, r.wf(), exists|q: nat| udiv_ok(self.v(), other.v(), q, r.v())
+//+}
+    {
+        if let Some(other) = other.to_u32() {
+            Rem::rem(&self, other)
+        } else {
+            let (_, r) = div_rem(self, other);
+            r
+        }
+    }
+//@ end
+}
+
 impl DivSpecImpl<BigUint> for u32 {
     open spec fn obeys_div_spec() -> bool { false }
     open spec fn div_req(self, rhs: BigUint) -> bool { rhs.wf() && (!mp() ==> rhs.v() != 0) }
